@@ -110,7 +110,7 @@ def variants(seq, with_dev):
 def check_cigars(args):
     seqs, with_dev, use_pysam = args
     import pysam
-    from src.common import get_read_blocks
+    from src.common import get_read_blocks, concat_gapless_blocks, correct_bam_coords
     from src.alignment_info import AlignmentInfo
     n = 0
     nontriv = 0
@@ -171,6 +171,13 @@ def check_cigars(args):
                     if not covered <= mine or (mine - covered) - dels:
                         raise core.HarnessError("reference walker disagrees with pysam on %s: %s vs %s" %
                                                 (cigar_str(cig), sorted(mine), sorted(covered)))
+                    # the second CIGAR walker named by the property: gapless blocks of pysam joined over insertions and deletions
+                    try:
+                        got2 = [tuple(x) for x in correct_bam_coords(concat_gapless_blocks(blocks, cig))]
+                    except Exception as e:  # noqa
+                        got2 = "EXC " + repr(e)
+                    if got2 != [tuple(x) for x in exp[0]]:
+                        bad.append(("concat_gapless_blocks", cigar_str(cig), 7, repr(got2), repr(exp[0])))
                     ai = AlignmentInfo(a)
                     if list(ai.read_exons) != exp[0] or list(ai.read_blocks) != exp[1]:
                         bad.append(("AlignmentInfo", cigar_str(cig), 7, repr((ai.read_exons, ai.read_blocks)), repr(exp[:2])))
